@@ -333,6 +333,7 @@ let err_text = function
   | EUnknownCardType -> "Err:Msg:" ^ show_text "Unknown card type"
   | EParseTid -> "Err:Msg:" ^ show_text "invalid digit found in string"
   | ETidTooLong -> "Err:Msg:" ^ show_text "The terminal id has more than eight digits"
+  | EWrongDevice -> "Err:Io:NotConnected"
 
 let opt_n f = function Some x -> f x | None -> "-"
 let opres_text = function
